@@ -228,7 +228,7 @@ fn c22_find_prev_non_zero_value_deep() {
 #[kani::unwind(16)]
 #[kani::stub(mmtk::util::metadata::side_metadata::global_side_metadata_base_address, stub_base)]
 #[kani::stub(mmtk::util::heap::layout::create_mmapper, stub_create_mmapper)]
-fn c22_find_prev_non_zero_value_vo_geometry() {
+fn c22_find_prev_non_zero_value_vo_geometry_deep() {
     check_find_prev(0, Some(3), 12);
 }
 
@@ -286,7 +286,7 @@ fn c22_find_next_non_zero_value_deep() {
 #[kani::unwind(16)]
 #[kani::stub(mmtk::util::metadata::side_metadata::global_side_metadata_base_address, stub_base)]
 #[kani::stub(mmtk::util::heap::layout::create_mmapper, stub_create_mmapper)]
-fn c22_find_next_non_zero_value_vo_geometry() {
+fn c22_find_next_non_zero_value_vo_geometry_deep() {
     check_find_next(0, Some(3), 12);
 }
 
@@ -324,5 +324,305 @@ fn check_find_next(lb: usize, lbr: Option<usize>, max_regions: usize) {
     }
     kani::cover!(r.is_some() && r.unwrap() > win.region_start(k), "C22.cover.find_next_higher_region");
     kani::cover!(r.is_none() && limit > (8 << win.spec.log_bytes_in_region), "C22.cover.find_next_none_long");
+    std::mem::forget(buf);
+}
+
+// ------------------------------------------------------------------------------------------
+// Tier C (modular): find_{prev,next}_non_zero_value_fast checked against the *contracts* of the two
+// byte-scanning loops (proved by c22_find_in_bytes) instead of their bodies. With the loops replaced
+// the search functions are loop-free, so the search range is only limited by the size of the harness
+// buffer (64 metadata bytes = 512 one-bit regions), not by an unwinding bound.
+//
+// The contract of `find_last_non_zero_bit_in_metadata_bytes(start, end)` is
+//     Found{a, b}  =>  start <= a < end, bit (a,b) is set, and every bit of [start,end) above (a,b) is zero
+//     NotFound     =>  every bit of [start, end) is zero
+// (dually for find_first). A contract stub cannot state the universally quantified part, so it is instantiated
+// at one *witness* bit chosen symbolically by the harness before the call (W_BIT): the stub returns an arbitrary
+// result and assumes the contract for that witness. Since the witness is arbitrary and the harness' final assertion
+// speaks about exactly that witness, this is the contract, not a weakening of it.
+// ------------------------------------------------------------------------------------------
+
+static mut W_BASE: usize = 0;
+static mut W_LEN: usize = 0;
+static mut W_BIT: usize = 0;
+static mut W_CALLS: usize = 0;
+
+unsafe fn mbit(p: usize) -> bool {
+    let b = *((W_BASE + p / 8) as *const u8);
+    (b >> (p % 8)) & 1 == 1
+}
+
+fn contract_find_in_bytes(start: Address, end: Address, last: bool) -> FindMetaBitResult {
+    unsafe {
+        let (s, e) = (start.as_usize(), end.as_usize());
+        // precondition of the contract: a well-formed range of mapped metadata (the harness buffer)
+        assert!(s <= e && s >= W_BASE && e <= W_BASE + W_LEN, "C22.modular.byte_scanner_called_on_a_range_inside_the_searched_metadata");
+        W_CALLS += 1;
+        let w_in = W_BIT >= 8 * (s - W_BASE) && W_BIT < 8 * (e - W_BASE);
+        if kani::any() {
+            let a: usize = kani::any();
+            let bit: u8 = kani::any();
+            kani::assume(a >= s && a < e && bit < 8);
+            let p = 8 * (a - W_BASE) + bit as usize;
+            kani::assume(mbit(p));
+            if last {
+                kani::assume(!(w_in && W_BIT > p && mbit(W_BIT)));
+            } else {
+                kani::assume(!(w_in && W_BIT < p && mbit(W_BIT)));
+            }
+            FindMetaBitResult::Found { addr: Address::from_usize(a), bit }
+        } else {
+            kani::assume(!(w_in && mbit(W_BIT)));
+            FindMetaBitResult::NotFound
+        }
+    }
+}
+fn contract_find_last_in_bytes(start: Address, end: Address) -> FindMetaBitResult {
+    contract_find_in_bytes(start, end, true)
+}
+fn contract_find_first_in_bytes(start: Address, end: Address) -> FindMetaBitResult {
+    contract_find_in_bytes(start, end, false)
+}
+
+const MW: usize = 64; // metadata bytes in the modular harnesses' window
+
+fn fieldb(img: &[u8; MW], k: usize, lb: usize) -> u8 {
+    let bit = k << lb;
+    let mask = if lb == 3 { 0xff } else { (1u8 << (1 << lb)) - 1 };
+    (img[bit / 8] >> (bit % 8)) & mask
+}
+
+/// Common set-up: 64-byte symbolic window, symbolic spec of width 2^lb (lb <= 3), witness region j with a witness
+/// bit inside its field that is set whenever the field is non-zero. Returns (window, image, j).
+fn modular_setup(buf: &mut Bytes<MW>, lb: usize) -> (Window<8>, [u8; MW], usize) {
+    modular_setup_geom(buf, lb, None)
+}
+fn modular_setup_geom(buf: &mut Bytes<MW>, lb: usize, lbr: Option<usize>) -> (Window<8>, [u8; MW], usize) {
+    let img = buf.0;
+    let win = match lbr {
+        Some(l) => Window::<8>::new_geom(buf.addr(), lb, l),
+        None => Window::<8>::new_at(buf.addr(), lb, 12),
+    };
+    let j: usize = kani::any();
+    kani::assume(j < win.n);
+    let jb: usize = kani::any();
+    kani::assume(jb < (1 << lb));
+    let wbit = (j << lb) + jb;
+    // no restriction on (image, j): a non-zero field has a set bit, and jb may be chosen as that bit
+    kani::assume(fieldb(&img, j, lb) == 0 || (img[wbit / 8] >> (wbit % 8)) & 1 == 1);
+    unsafe {
+        W_BASE = buf.addr();
+        W_LEN = MW;
+        W_BIT = wbit;
+        W_CALLS = 0;
+    }
+    (win, img, j)
+}
+
+fn spec_find_prev(win: &Window<8>, img: &[u8; MW], lb: usize, k: usize, data_addr: Address, limit: usize, j: usize, r: Option<Address>, tag_simple: bool) {
+    let lowest = data_addr.as_usize() - (limit - 1).min(data_addr.as_usize());
+    let lbr = win.spec.log_bytes_in_region;
+    let j_in = j <= k && win.region_start(j).as_usize() >= lowest;
+    match r {
+        Some(a) => {
+            let a = a.as_usize();
+            if tag_simple {
+                assert!(a & ((1 << lbr) - 1) == 0, "C22.find_prev_simple.result_is_region_start");
+                assert!(a >= lowest && a <= data_addr.as_usize(), "C22.find_prev_simple.result_in_search_range");
+            } else {
+                assert!(a & ((1 << lbr) - 1) == 0, "C22.find_prev_fast.result_is_region_start");
+                assert!(a >= lowest && a <= data_addr.as_usize(), "C22.find_prev_fast.result_in_search_range");
+            }
+            let q = (a >> lbr) - win.r0;
+            if tag_simple {
+                assert!(fieldb(img, q, lb) != 0, "C22.find_prev_simple.result_is_non_zero");
+                assert!(!(j_in && j > q && fieldb(img, j, lb) != 0), "C22.find_prev_simple.no_non_zero_region_met_earlier");
+            } else {
+                assert!(fieldb(img, q, lb) != 0, "C22.find_prev_fast.result_is_non_zero");
+                assert!(!(j_in && j > q && fieldb(img, j, lb) != 0), "C22.find_prev_fast.no_non_zero_region_met_earlier");
+            }
+        }
+        None => {
+            if tag_simple {
+                assert!(!(j_in && fieldb(img, j, lb) != 0), "C22.find_prev_simple.none_means_all_zero");
+            } else {
+                assert!(!(j_in && fieldb(img, j, lb) != 0), "C22.find_prev_fast.none_means_all_zero");
+            }
+        }
+    }
+}
+
+/// find_prev_non_zero_value_fast against the scanner contracts: any window position, region size, width 1/2/4/8 bits,
+/// any data address and any limit whose range stays inside the 64-byte window. Loop-free.
+// (unwind: loop-free except std's Once::call state loop behind the MMAPPER lazy static)
+#[kani::proof]
+#[kani::unwind(4)]
+#[kani::stub(mmtk::util::metadata::side_metadata::global_side_metadata_base_address, stub_base)]
+#[kani::stub(mmtk::util::heap::layout::create_mmapper, stub_create_mmapper)]
+#[kani::stub(mmtk::util::metadata::side_metadata::helpers::find_last_non_zero_bit_in_metadata_bytes, contract_find_last_in_bytes)]
+fn c22_find_prev_fast_modular() {
+    let lb = any_small_bits();
+    let mut buf = Bytes::<MW>(kani::any());
+    let (win, img, j) = modular_setup(&mut buf, lb);
+    kani::assume(win.r0 > 0);
+    let k: usize = kani::any();
+    kani::assume(k < win.n);
+    let data_addr = win.addr_in(k);
+    let limit: usize = kani::any();
+    kani::assume(limit >= 1);
+    let lowest = data_addr.as_usize() - (limit - 1).min(data_addr.as_usize());
+    kani::assume(lowest >= win.region_start(0).as_usize());
+    let r = mmtk::verif_hooks::side_global::find_prev_non_zero_value_fast::<u8>(&win.spec, data_addr, limit);
+    spec_find_prev(&win, &img, lb, k, data_addr, limit, j, r, false);
+    kani::cover!(r.is_some() && unsafe { W_CALLS } > 0 && k > 300, "C22.cover.fast_prev_found_by_byte_scanner_long_range");
+    kani::cover!(r.is_none() && limit > (200 << win.spec.log_bytes_in_region), "C22.cover.fast_prev_none_long");
+    kani::cover!(win.region_start(k).as_usize() < lowest, "C22.cover.fast_prev_own_region_starts_below_range");
+    std::mem::forget(buf);
+}
+
+/// The region-by-region implementation (the property's reference scan) against the same specification;
+/// bounded: at most 10 regions searched.
+#[kani::proof]
+#[kani::unwind(13)]
+#[kani::stub(mmtk::util::metadata::side_metadata::global_side_metadata_base_address, stub_base)]
+#[kani::stub(mmtk::util::heap::layout::create_mmapper, stub_create_mmapper)]
+fn c22_find_prev_simple() {
+    check_find_prev_simple(0, Some(3));
+}
+#[kani::proof]
+#[kani::unwind(13)]
+#[kani::stub(mmtk::util::metadata::side_metadata::global_side_metadata_base_address, stub_base)]
+#[kani::stub(mmtk::util::heap::layout::create_mmapper, stub_create_mmapper)]
+fn c22_find_prev_simple_deep() {
+    check_find_prev_simple(any_small_bits(), None);
+}
+fn check_find_prev_simple(lb: usize, lbr: Option<usize>) {
+    let mut buf = Bytes::<MW>(kani::any());
+    let (win, img, j) = modular_setup_geom(&mut buf, lb, lbr);
+    kani::assume(win.r0 > 0);
+    let k: usize = kani::any();
+    kani::assume(k < win.n);
+    let data_addr = win.addr_in(k);
+    let limit: usize = kani::any();
+    kani::assume(limit >= 1 && limit <= 10 << win.spec.log_bytes_in_region);
+    let lowest = data_addr.as_usize() - (limit - 1).min(data_addr.as_usize());
+    kani::assume(lowest >= win.region_start(0).as_usize());
+    let r = mmtk::verif_hooks::side_global::find_prev_non_zero_value_simple::<u8>(&win.spec, data_addr, limit);
+    spec_find_prev(&win, &img, lb, k, data_addr, limit, j, r, true);
+    kani::cover!(r.is_some() && r.unwrap() < win.region_start(k), "C22.cover.simple_prev_lower_region");
+    kani::cover!(win.region_start(k).as_usize() < lowest, "C22.cover.simple_prev_own_region_starts_below_range");
+    std::mem::forget(buf);
+}
+
+fn spec_find_next(win: &Window<8>, img: &[u8; MW], lb: usize, k: usize, end: usize, j: usize, r: Option<Address>, tag_simple: bool) {
+    let lbr = win.spec.log_bytes_in_region;
+    let j_in = j >= k && win.region_start(j).as_usize() < end;
+    match r {
+        Some(a) => {
+            let a = a.as_usize();
+            if tag_simple {
+                assert!(a & ((1 << lbr) - 1) == 0, "C22.find_next_simple.result_is_region_start");
+                assert!(a >= win.region_start(k).as_usize() && a < end, "C22.find_next_simple.result_in_search_range");
+            } else {
+                assert!(a & ((1 << lbr) - 1) == 0, "C22.find_next_fast.result_is_region_start");
+                assert!(a >= win.region_start(k).as_usize() && a < end, "C22.find_next_fast.result_in_search_range");
+            }
+            let q = (a >> lbr) - win.r0;
+            if tag_simple {
+                assert!(fieldb(img, q, lb) != 0, "C22.find_next_simple.result_is_non_zero");
+                assert!(!(j_in && j < q && fieldb(img, j, lb) != 0), "C22.find_next_simple.no_non_zero_region_met_earlier");
+            } else {
+                assert!(fieldb(img, q, lb) != 0, "C22.find_next_fast.result_is_non_zero");
+                assert!(!(j_in && j < q && fieldb(img, j, lb) != 0), "C22.find_next_fast.no_non_zero_region_met_earlier");
+            }
+        }
+        None => {
+            if tag_simple {
+                assert!(!(j_in && fieldb(img, j, lb) != 0), "C22.find_next_simple.none_means_all_zero");
+            } else {
+                assert!(!(j_in && fieldb(img, j, lb) != 0), "C22.find_next_fast.none_means_all_zero");
+            }
+        }
+    }
+}
+
+// (unwind: loop-free except std's Once::call state loop behind the MMAPPER lazy static)
+#[kani::proof]
+#[kani::unwind(4)]
+#[kani::stub(mmtk::util::metadata::side_metadata::global_side_metadata_base_address, stub_base)]
+#[kani::stub(mmtk::util::heap::layout::create_mmapper, stub_create_mmapper)]
+#[kani::stub(mmtk::util::metadata::side_metadata::helpers::find_first_non_zero_bit_in_metadata_bytes, contract_find_first_in_bytes)]
+fn c22_find_next_fast_modular() {
+    let lb = any_small_bits();
+    let mut buf = Bytes::<MW>(kani::any());
+    let (win, img, j) = modular_setup(&mut buf, lb);
+    let k: usize = kani::any();
+    kani::assume(k < win.n);
+    let data_addr = win.addr_in(k);
+    let limit: usize = kani::any();
+    kani::assume(limit >= 1 && limit <= (1 << 40));
+    let end = data_addr.as_usize() + limit;
+    kani::assume(end <= win.region_start(win.n - 1).as_usize());
+    let r = mmtk::verif_hooks::side_global::find_next_non_zero_value_fast::<u8>(&win.spec, data_addr, limit);
+    spec_find_next(&win, &img, lb, k, end, j, r, false);
+    kani::cover!(r.is_some() && unsafe { W_CALLS } > 0 && r.unwrap().as_usize() > win.region_start(k + 300).as_usize(), "C22.cover.fast_next_found_by_byte_scanner_long_range");
+    kani::cover!(r.is_none() && limit > (200 << win.spec.log_bytes_in_region), "C22.cover.fast_next_none_long");
+    std::mem::forget(buf);
+}
+
+#[kani::proof]
+#[kani::unwind(14)]
+#[kani::stub(mmtk::util::metadata::side_metadata::global_side_metadata_base_address, stub_base)]
+#[kani::stub(mmtk::util::heap::layout::create_mmapper, stub_create_mmapper)]
+fn c22_find_next_simple() {
+    check_find_next_simple(0, Some(3));
+}
+#[kani::proof]
+#[kani::unwind(14)]
+#[kani::stub(mmtk::util::metadata::side_metadata::global_side_metadata_base_address, stub_base)]
+#[kani::stub(mmtk::util::heap::layout::create_mmapper, stub_create_mmapper)]
+fn c22_find_next_simple_deep() {
+    check_find_next_simple(any_small_bits(), None);
+}
+fn check_find_next_simple(lb: usize, lbr: Option<usize>) {
+    let mut buf = Bytes::<MW>(kani::any());
+    let (win, img, j) = modular_setup_geom(&mut buf, lb, lbr);
+    let k: usize = kani::any();
+    kani::assume(k < win.n);
+    let data_addr = win.addr_in(k);
+    let limit: usize = kani::any();
+    kani::assume(limit >= 1 && limit <= 10 << win.spec.log_bytes_in_region);
+    let end = data_addr.as_usize() + limit;
+    kani::assume(end <= win.region_start(win.n - 1).as_usize());
+    let r = mmtk::verif_hooks::side_global::find_next_non_zero_value_simple::<u8>(&win.spec, data_addr, limit);
+    spec_find_next(&win, &img, lb, k, end, j, r, true);
+    kani::cover!(r.is_some() && r.unwrap() > win.region_start(k), "C22.cover.simple_next_higher_region");
+    std::mem::forget(buf);
+}
+
+// (unwind: loop-free except std's Once::call state loop behind the MMAPPER lazy static)
+#[kani::proof]
+#[kani::unwind(4)]
+#[kani::stub(mmtk::util::metadata::side_metadata::global_side_metadata_base_address, stub_base)]
+#[kani::stub(mmtk::util::heap::layout::create_mmapper, stub_create_mmapper)]
+#[kani::stub(mmtk::util::metadata::side_metadata::helpers::find_last_non_zero_bit_in_metadata_bytes, contract_find_last_in_bytes)]
+fn c22x_a() {
+    let lb = 0;
+    let mut buf = Bytes::<MW>(kani::any());
+    let img = buf.0;
+    let win = Window::<8>::new_geom(buf.addr(), lb, 3);
+    let j: usize = kani::any();
+    kani::assume(j < win.n);
+    unsafe { W_BASE = buf.addr(); W_LEN = MW; W_BIT = j; W_CALLS = 0; }
+    kani::assume(win.r0 > 0);
+    let k: usize = kani::any();
+    kani::assume(k < win.n);
+    let data_addr = win.addr_in(k);
+    let limit: usize = kani::any();
+    kani::assume(limit >= 1);
+    let lowest = data_addr.as_usize() - (limit - 1).min(data_addr.as_usize());
+    kani::assume(lowest >= win.region_start(0).as_usize());
+    let r = mmtk::verif_hooks::side_global::find_prev_non_zero_value_fast::<u8>(&win.spec, data_addr, limit);
+    spec_find_prev(&win, &img, lb, k, data_addr, limit, j, r, false);
     std::mem::forget(buf);
 }
